@@ -46,7 +46,7 @@ theorem lexLt_asymm {a b : Key} (h : lexLt a b = true) : lexLt b a = false := by
   | false => rfl
   | true => have := lexLt_trans h hb; simp [lexLt_irrefl] at this
 
-theorem u8_trichotomy (x y : UInt8) : x < y ∨ x = y ∨ y < x := by
+theorem u8_trichotomy_lk (x y : UInt8) : x < y ∨ x = y ∨ y < x := by
   rcases Nat.lt_trichotomy x.toNat y.toNat with h | h | h
   · exact Or.inl (UInt8.lt_iff_toNat_lt.2 h)
   · exact Or.inr (Or.inl (UInt8.toNat_inj.1 h))
@@ -59,7 +59,7 @@ theorem lexLt_trichotomy : ∀ a b : Key, lexLt a b = true ∨ a = b ∨ lexLt b
   | x :: xs, y :: ys => by
     simp only [lexLt, Bool.or_eq_true, decide_eq_true_eq, Bool.and_eq_true, beq_iff_eq,
       List.cons.injEq]
-    rcases u8_trichotomy x y with h | h | h
+    rcases u8_trichotomy_lk x y with h | h | h
     · exact Or.inl (Or.inl h)
     · subst h
       rcases lexLt_trichotomy xs ys with h | h | h
